@@ -92,6 +92,65 @@ theorem C03_opaque_identical_with_skipcopy (k : OKind) (s : Str.S)
     simp [Ty.beq]
   unfold_rules
 
+/-- **no rule ⇒ rejected, for ALL types**: when no custom function or existing method applies (the caller of `noLookup` has
+checked that) and none of the eleven rules matches the pair — not both structs, `useUnderlyingTypeMethods` off, not identical
+under `skipCopySameType`, not an enum pair, the target not a pointer, the source not a pointer with
+`useZeroValueOnPointerInconsistency`, not basic types of one kind, not list → slice, not map → map — generation fails at this
+position with the type mismatch diagnostic, whatever the types are. -/
+theorem C03_no_rule_rejects (s t : Ty)
+    (hu : cx.cfg.common.useUnderlying = false)
+    (hsk : (cx.cfg.common.skipCopySameType && s == t) = false)
+    (hen : isEnumPair c cx.cfg.common s t = false)
+    (hst : ((isStruct c.env s).isSome && (isStruct c.env t).isSome) = false)
+    (htp : isPtr c.env t = none)
+    (hsp : (cx.cfg.common.useZeroValue && (isPtr c.env s).isSome) = false)
+    (hb : isBasic c.env s = none ∨ isBasic c.env t = none ∨
+          ∃ a b, isBasic c.env s = some a ∧ isBasic c.env t = some b ∧ (a.canon == b.canon) = false)
+    (hl : isList c.env s = none ∨ isList c.env t = none ∨ ∃ te n, isList c.env t = some (te, some n))
+    (hm : isMap c.env s = none ∨ isMap c.env t = none) :
+    noLookup c (fuel+1) cx mode pp s t path st = .error (typeMismatch c s t) := by
+  unfold noLookup
+  have hst' : ¬ ((isStruct c.env s).isSome = true ∧ (isStruct c.env t).isSome = true) := by
+    intro h; simp [h.1, h.2] at hst
+  have hsp' : ¬ (cx.cfg.common.useZeroValue = true ∧ (isPtr c.env s).isSome = true) := by
+    intro h; simp [h.1, h.2] at hsp
+  simp [fail, bind, StateT.bind, Except.bind, pure, Except.pure, StateT.pure, get, getThe, MonadStateOf.get, StateT.get, throw, throwThe,
+    MonadExceptOf.throw, StateT.lift, hu, htp, hst', hsp', hsk, hen]
+  have hcond : ∀ a b, isBasic c.env s = some a → isBasic c.env t = some b → (a.canon == b.canon) = false := by
+    intro a b h1 h2
+    rcases hb with hb | hb | ⟨a', b', hb1, hb2, hb3⟩
+    · rw [hb] at h1; cases h1
+    · rw [hb] at h2; cases h2
+    · rw [hb1] at h1; rw [hb2] at h2; cases h1; cases h2; exact hb3
+  have hlist : ∀ se sf te, isList c.env s = some (se, sf) → isList c.env t = some (te, none) → False := by
+    intro se sf te h1 h2
+    rcases hl with hl | hl | ⟨te', n, hl⟩
+    · rw [hl] at h1; cases h1
+    · rw [hl] at h2; cases h2
+    · rw [hl] at h2; cases h2
+  have hmap : ∀ a b, isMap c.env s = some a → isMap c.env t = some b → False := by
+    intro a b h1 h2
+    rcases hm with hm | hm
+    · rw [hm] at h1; cases h1
+    · rw [hm] at h2; cases h2
+  clear hb hl hm
+  have hc2 : ∀ a b, isBasic c.env s = some a → isBasic c.env t = some b → ¬ (a.canon = b.canon) := by
+    intro a b h1 h2 h3; have := hcond a b h1 h2; simp [h3] at this
+  have hl2 : ∀ se sf te, isList c.env s = some (se, sf) → ¬ isList c.env t = some (te, none) :=
+    fun se sf te h1 h2 => hlist se sf te h1 h2
+  have hm2 : ∀ a b, isMap c.env s = some a → ¬ isMap c.env t = some b := fun a b h1 h2 => hmap a b h1 h2
+  clear hcond hlist hmap hst hsp hsk hen
+  cases hs0 : isBasic c.env s <;> cases hs0' : isBasic c.env t <;>
+    rcases hl1 : isList c.env s with _ | ⟨se, sf⟩ <;> rcases hl3 : isList c.env t with _ | ⟨te, _ | n⟩ <;>
+    rcases hm1 : isMap c.env s with _ | ⟨sk, sv⟩ <;> rcases hm3 : isMap c.env t with _ | ⟨tk, tv⟩ <;>
+    simp_all [StateT.lift] <;> (try rfl)
+
+/-- the hypotheses of `C03_no_rule_rejects` are met by real shapes: a slice never becomes an array, whatever the elements -/
+example (se te : Ty) (n : Nat)
+    (hu : cx.cfg.common.useUnderlying = false) (hs : cx.cfg.common.skipCopySameType = false) :
+    noLookup c (fuel+1) cx mode pp (.slice se) (.array n te) path st = .error (typeMismatch c (.slice se) (.array n te)) := by
+  apply C03_no_rule_rejects <;> simp [hu, hs, isEnumPair, enumMembers, isStruct, isPtr, isBasic, isList, isMap, under]
+
 end
 
 /-- a failing generation yields no method table at all (hence no file: C17) -/
